@@ -12,8 +12,8 @@ flatten / filter_map / take ...), every line's io::Result is tested and its Err 
 and every line that parses is pushed (the only skips are the blank-line and the JSON-error edges).
 Noted, not decided: an unparsable WAL line is skipped by from_wal_file (the archive then lacks it); a decode error in recover_all skips that archive; losslessness of the MessagePack re-encoding; torn last lines.
 """
-FLOOR = 7
-REQUIRED = ["C19.a", "C19.b", "C19.c", "C19.d", "C19.e", "C19.f", "C19.g"]
+FLOOR = 8
+REQUIRED = ["C19.a", "C19.b", "C19.c", "C19.d", "C19.e", "C19.f", "C19.g", "C19.h"]
 
 
 def str_const_args(body):
@@ -185,6 +185,12 @@ def run(ctx):
         if not (b._origin_locals(wf.args[0]) & {l for l, _ in b.flow_forward(fw.dest)}):
             bad.append(("writes-other-archive", "the archive written is not the one read from the WAL file", None))
         w = F.fn("WalArchive::write_to_file")
+        if not w.find_calls(r"Write>::write_all$|Write::write_all$"):
+            # streamed through an encoder: its final flush must be an explicit, checked finish()
+            auto = w.find_calls(r"Encoder.*::auto_finish$|AutoFinishEncoder")
+            fin = [c_ for c_ in w.find_calls(r"Encoder.*::finish$") if [e for (e, v) in ok_edges(w, c_) if v == "Continue"]]
+            if auto or not fin:
+                return bad + [("archive-file-ok-despite:stream-finish", "write_to_file streams the archive through an encoder whose final write happens when it is dropped (auto_finish): an error at that point (disk full) is discarded, write_to_file returns Ok and the cleaner deletes the log", sp(w, (auto or w.calls)[0].bb))]
         wa = one(w, r"Write>::write_all$|Write::write_all$")
         sy = one(w, r"fs::File::sync_all$")
         oks = [bb for (bb, j, v, dst) in w.aggregates("result::Result", "Ok") if dst == [0]]
@@ -401,3 +407,51 @@ def run(ctx):
             inst.sites += [sp(b, br.bb), sp(b, js.bb), sp(b, push[0].bb)]
         return bad
     ctx.run("C19.e", "K9 LOOP", "WalArchive::from_wal_file", "the archive is built from every line of the log, or not at all", e_)
+
+    def h_(inst):
+        # MessagePack (rmp_serde::to_vec, structs as arrays) and bincode are positional: a struct that omits a field under a
+        # condition shifts every later slot, so an archive that was written "successfully" cannot be decoded again
+        SER = re.compile(r"^(.*)::_::<impl .*_serde::Serialize for (.+)>::serialize$")
+        sers = {}
+        for k in F.keys():
+            m_ = SER.match(k)
+            if m_:
+                sers[m_.group(2)] = k
+        roots = {}
+        for k in F.keys():
+            if k.startswith("bin:") or "_test" in k or "::tests::" in k:
+                continue
+            for c in F.fn_exact(k).calls:
+                if c.cleanup or not re.search(r"^(rmp_serde::(to_vec|encode::write|to_vec_named)|bincode::(serialize|serialize_into))$", norm_path(c.nname)):
+                    continue
+                if norm_path(c.nname).endswith("to_vec_named"):
+                    continue
+                for t in re.findall(r"[A-Za-z_][A-Za-z_0-9]*(?:::[A-Za-z_][A-Za-z_0-9]*)+", c.ga or ""):
+                    if t in sers:
+                        roots.setdefault(t, norm_path(c.nname))
+        if "engine::core::wal::wal_archive::WalArchive" not in roots:
+            raise AnchorMissing("rmp_serde::to_vec::<WalArchive> (the archive encoder)")
+        todo, seen_t = list(roots), {}
+        while todo:
+            t = todo.pop()
+            if t in seen_t:
+                continue
+            b = F.fn_exact(sers[t])
+            seen_t[t] = b
+            for c in b.calls:
+                if c.cleanup:
+                    continue
+                for t2 in re.findall(r"[A-Za-z_][A-Za-z_0-9]*(?:::[A-Za-z_][A-Za-z_0-9]*)+", c.ga or ""):
+                    if t2 in sers and t2 not in seen_t:
+                        todo.append(t2)
+        bad = []
+        for t, b in sorted(seen_t.items()):
+            sk = b.find_calls(r"ser::SerializeStruct::skip_field$")
+            if sk:
+                flds = sorted({x for c in sk for x in str_consts(b, c.args[1], 0)})
+                bad.append(("positional-format-skips-field:%s" % t.split("::")[-1], "%s is written through a positional format (MessagePack array / bincode) but can leave out %s: the archive write succeeds, the log is deleted, and the archive no longer decodes (every later slot is shifted)" % (t.split("::")[-1], flds or "a field"), sp(b, sk[0].bb)))
+        inst.sites = ["%d root types, %d struct types reached: %s" % (len(roots), len(seen_t), sorted(x.split("::")[-1] for x in seen_t))[:400]]
+        if "engine::core::wal::wal_entry::WalEntry" not in seen_t:
+            raise AnchorMissing("WalEntry among the types the archive encoder writes")
+        return bad
+    ctx.run("C19.h", "K11 SIB", "types written through rmp_serde / bincode", "a positionally encoded struct never omits a field", h_)
